@@ -3,7 +3,7 @@ decoding of the draws the implementation consumed, the matching model operation 
 of both sides.  Used by C01–C06 and C16."""
 from fractions import Fraction as Fr
 import numpy as np
-from .common import guarded, rat, rats, ints, rows, rows3, frac, fracs, fields, close, numerator_of, F, POOL
+from .common import run_model, guarded, rat, rats, ints, rows, rows3, frac, fracs, fields, close, numerator_of, F, POOL
 from .prng import RecSHA256, RecRandomState, Draws
 
 ALTS = ["greater", "less", "two-sided"]
@@ -954,4 +954,71 @@ def compare_recorded(ctx, ops, meta, outs, block):
             agree = False
             d2 = dict(det); d2.update({"issue": probs[0], "all_issues": probs[:5], "model": o[:600], "returned": str(ret)[:400]})
             ctx.violation("correspondence", d2, site=fn.site, no_input=True)
+    ctx.block(block, agree, len(ops))
+
+
+def nan_strat_block(ctx, ncases, block="stratified_two_sample-NaN-model-vs-impl"):
+    """stratified_two_sample(stat='mean') on responses with NaN-coded non-responders (np.nanmean): the recorded draws are
+    replayed through Model/Nan.lean; statistics that are NaN (an arm without responders) must be counted in neither tail"""
+    fn = FUNCS["stratified_two_sample"]
+    nan = float("nan")
+    ops, meta = [], []
+    for _ in range(ncases):
+        group, cond = strat_design(ctx.rng); n = len(group)
+        resp = small_values(ctx.rng, n)
+        for i in ctx.rng.sample(range(n), ctx.rng.randint(1, max(1, (n + 1) // 2))):
+            resp[i] = nan
+        p = {"group": group, "cond": cond, "resp": resp, "reps": pick_reps(ctx.rng, 10), "alt": ctx.rng.choice(ALTS),
+             "plus1": ctx.rng.random() < 0.5, "keep": ctx.rng.random() < 0.6, "stat": "mean", "w": [0] * n,
+             "lab": ctx.rng.choice(LABEL_KINDS), "intdtype": False, "ret": "np"}
+        g, gkind, gseed = mk_generator(ctx.rng)
+        with np.errstate(all="ignore"):
+            import warnings
+            with warnings.catch_warnings():
+                warnings.simplefilter("ignore")
+                r, seen = fn.call(p, g)
+        det = {"call": "stratified_two_sample", "params": {k: (["nan" if isinstance(t, float) and t != t else t for t in v] if k == "resp" else v) for k, v in p.items()},
+               "generator": gkind, "seed": gseed}
+        ctx.case(("nan", repr(sorted(det["params"].items()))), True, det); ctx.count("stratified_two_sample:NaN-responses"); ctx.count("gen-" + gkind)
+        if r[0] != "ok":
+            det.update({"issue": "call failed", "returned": r[1:]}); ctx.violation("oracle", det, site=fn.site); continue
+        try:
+            draws = fn.draws(p, g.log)
+        except LookupError as ex:
+            det.update({"issue": "generator used differently from the model: " + str(ex)})
+            ctx.violation("correspondence", det, site=fn.site, no_input=True); continue
+        o = fn.ordering(p)
+        gs = [p["group"][i] for i in o]; rs = [p["resp"][i] for i in o]
+        nt = sum(1 for c in p["cond"] if c == p["cond"][o[0]])
+        ops.append(f"strat2nan|{p['alt']}|{int(p['plus1'])}|{ints(gs)}|{' '.join('nan' if t != t else rat(t) for t in rs)}|{nt}|{rows3(draws)}")
+        meta.append((p, r[1], det, tuple(None if t != t else F(t) for t in rs)))
+    outs = run_model(ops)
+    agree = True
+    for out, (p, ret, det, obs_args) in zip(outs, meta):
+        if out.startswith("bad-op"):
+            raise RuntimeError("driver rejected: " + out)
+        f = fields(out); probs = []
+        reps, c = p["reps"], (1 if p["plus1"] else 0)
+        opt = lambda t: None if t == "nan" else frac(t)
+        mobs = opt(f["obs"]); mdist = [opt(t) for t in f["dist"].split()]
+        margs = [tuple(opt(t) for t in row.split()) for row in f["args"].split(";")] if f["args"].strip() else []
+        pval, obs = float(ret[0]), float(ret[1]); dist = list(ret[2]) if p["keep"] else None
+        if (mobs is None) != (obs != obs):
+            probs.append(f"observed statistic {obs}, model {f['obs']}")
+        elif mobs is not None and not close(obs, mobs):
+            probs.append(f"observed statistic {obs} != {float(mobs)}")
+        if dist is not None:
+            if len(dist) != reps or any(((b is None) != (a != a)) or (b is not None and not close(a, b)) for a, b in zip(dist, mdist)):
+                probs.append("returned dist differs from the model's (values or NaN positions)")
+        if mobs is None:
+            if not close(pval, frac(f["p"]), rel=1e-12):
+                probs.append(f"NaN observed statistic: p-value {pval} != {frac(f['p'])} (nothing can be at least as extreme as NaN)")
+        else:
+            fin = [(v, a) for v, a in zip(mdist, margs) if v is not None]
+            probs += bracket_check(pval, p["alt"], c, reps, [v for v, _ in fin], mobs, [a for _, a in fin], obs_args)
+        if probs:
+            agree = False
+            # a disagreement on these data is a failing input for the tail-count definition (hits over the non-NaN statistics)
+            det.update({"issue": probs[0], "all_issues": probs[:5], "model": out[:600], "returned": str(ret)[:400]})
+            ctx.violation("oracle", det, site=fn.site)
     ctx.block(block, agree, len(ops))
